@@ -649,11 +649,16 @@ def main(tier='quick', seed=0, repo=None):
                 print('[C20] slow run: %s' % (x,), flush=True)
         # ---------------- violations
         nviol = 0
+        unreplayed = []
         known = report.load_known(PROP)
         for spec, res, m in found.items:
             data, err = finalize_violation(spec, res, m, ref, repo, max_min, 45 if tier == 'quick' else 240)
             if data is None:
-                raise HarnessError('violation of seed %s could not be replayed: %s (signature %r)' % (spec['seed'], err, M.signature_of(m)))
+                # a deviation whose explicit schedule does not reproduce is never reported as a VIOLATION; it is a harness error
+                # unless another deviation of this check run does reproduce (then that one is the report, this one a note)
+                unreplayed.append('violation of seed %s could not be replayed: %s (signature %r)' % (spec['seed'], err, M.signature_of(m)))
+                print('[C20] note: %s' % unreplayed[-1], flush=True)
+                continue
             path = report.write_replay(PROP, '%s-%s' % (spec['sub'], spec['seed']), data)
             k = match_known(known, data)
             if k is not None:
@@ -730,6 +735,8 @@ def main(tier='quick', seed=0, repo=None):
         print('[C20] reference table: %d ops computed in %.1fs' % (len(ref), ref.seconds), flush=True)
         print('[C20] %d sim runs (%s), %d S3 interpreters, %d steps, %d switches, faults fired %s, %d distinct interleavings, %.1fs' % (
             sim_runs, dict(stats.runs), s3_runs, stats.steps, stats.switches, dict(stats.fired), len(stats.sigs), wall), flush=True)
+        if unreplayed and not nviol:
+            raise HarnessError(unreplayed[0])
         return 1 if nviol else 0
     finally:
         ref_pool.close()
